@@ -1268,7 +1268,9 @@ class EtreeElementNode(ElementNode):
                             elif xsd_element is None and particle.is_matching(node.name):
                                 xsd_element = particle
                         if xsd_element is not None:
-                            if xsd_element.name != node.name:
+                            if getattr(xsd_element, 'process_contents', None) == 'skip':
+                                xsd_element = None  # not assessed: no declaration applies
+                            elif xsd_element.name != node.name:
                                 # a wildcard or a substitute
                                 xsd_element = schema.get_element(node.name)
                             sub_cache[node.name] = xsd_element
